@@ -170,10 +170,21 @@ fn case_hash<C: Serialize>(c: &C) -> u64 {
 /// Evaluate a case and apply the known-findings policy: a run explained only by a deviation
 /// model counts as a known finding if that finding is listed in known_findings.json, and as a
 /// violation otherwise (a "fixed:" entry suppresses nothing).
-pub fn judge<P: Property>(p: &P, case: &P::Case, allowed: &BTreeSet<String>) -> Evaluation {
+pub fn judge<P: Property>(p: &P, case: &P::Case, allowed: &Policy) -> Evaluation {
     let mut ev = p.evaluate(case);
+    // A violation whose class (e.g. a panic site) is listed under a known finding is that finding.
+    if let Some(v) = &ev.violation {
+        if let Some(id) = allowed.class_to_id.get(&v.class) {
+            ev.known.push(id.clone());
+            ev.counters
+                .entry(format!("known_finding_hits.{id}"))
+                .and_modify(|n| *n += 1)
+                .or_insert(1);
+            ev.violation = None;
+        }
+    }
     if ev.violation.is_none() {
-        if let Some(k) = ev.known.iter().find(|k| !allowed.contains(*k)) {
+        if let Some(k) = ev.known.iter().find(|k| !allowed.ids.contains(*k)) {
             ev.violation = Some(Violation {
                 class: format!("unlisted-deviation:{k}"),
                 detail: format!(
@@ -185,12 +196,22 @@ pub fn judge<P: Property>(p: &P, case: &P::Case, allowed: &BTreeSet<String>) -> 
     ev
 }
 
-pub fn allowed_ids(kf: &KnownFindings, property: &str) -> BTreeSet<String> {
-    kf.findings
-        .iter()
-        .filter(|f| f.property == property)
-        .map(|f| f.id.clone())
-        .collect()
+/// What known_findings.json allows for one property.
+#[derive(Clone, Debug, Default)]
+pub struct Policy {
+    pub ids: BTreeSet<String>,
+    pub class_to_id: BTreeMap<String, String>,
+}
+
+pub fn allowed_ids(kf: &KnownFindings, property: &str) -> Policy {
+    let mut p = Policy::default();
+    for f in kf.findings.iter().filter(|f| f.property == property) {
+        p.ids.insert(f.id.clone());
+        for c in &f.classes {
+            p.class_to_id.insert(c.clone(), f.id.clone());
+        }
+    }
+    p
 }
 
 struct Shared {
@@ -209,7 +230,7 @@ pub fn minimise<P: Property>(
     case: &P::Case,
     class: &str,
     budget_evals: usize,
-    allowed: &BTreeSet<String>,
+    allowed: &Policy,
 ) -> (P::Case, usize) {
     let mut cur = case.clone();
     let mut evals = 0;
@@ -254,7 +275,7 @@ pub fn write_replay<C: Serialize>(dir: &Path, name: &str, rf: &ReplayFile<C>) ->
 pub fn replay_file<P: Property>(
     p: &P,
     path: &Path,
-    allowed: &BTreeSet<String>,
+    allowed: &Policy,
 ) -> Result<(ReplayFile<P::Case>, Evaluation), String> {
     let b = std::fs::read(path).map_err(|e| format!("read {}: {e}", path.display()))?;
     let rf: ReplayFile<P::Case> =
@@ -639,4 +660,39 @@ pub fn selfcheck<P: Property>(p: &P, seed: u64, n: u64, child: bool) -> Result<V
         }
     }
     Ok(a)
+}
+
+
+/// Development aid: evaluate `n` cases and tally every violation class (no early stop, no files).
+pub fn survey<P: Property>(p: &P, seed: u64, n: u64) {
+    let policy = allowed_ids(&load_known_findings(), p.id());
+    let next = AtomicU64::new(0);
+    let tally: Mutex<BTreeMap<String, (u64, u64, String)>> = Mutex::new(BTreeMap::new());
+    std::thread::scope(|s| {
+        for _ in 0..workers() {
+            s.spawn(|| loop {
+                let i = next.fetch_add(1, Ordering::SeqCst);
+                if i >= n {
+                    break;
+                }
+                let case = p.generate(rng::mix(seed, i), i);
+                let ev = judge(p, &case, &policy);
+                if let Some(v) = ev.violation {
+                    let mut t = tally.lock().unwrap();
+                    let e = t.entry(v.class.clone()).or_insert((0, i, v.detail.clone()));
+                    e.0 += 1;
+                    if i < e.1 {
+                        e.1 = i;
+                        e.2 = v.detail;
+                    }
+                }
+            });
+        }
+    });
+    let t = tally.into_inner().unwrap();
+    println!("survey {}: {n} runs, {} violation classes", p.id(), t.len());
+    for (c, (k, i, d)) in t {
+        let d: String = d.chars().take(300).collect();
+        println!("{k:>7}  {c}\n         first at run {i}: {d}");
+    }
 }
